@@ -21,6 +21,7 @@ Private attributes of the implementation (`_unicode/_len/_s/_width`, `color_str`
 they exist; the verdict rests on the public accessors (observation steps compared with a fresh rebuild, final sweep).
 """
 import itertools
+import operator
 import re
 from itertools import chain
 
@@ -44,7 +45,8 @@ RULE = ("programs: (a) scenario enumeration: every (aliasing operation A, observ
         "a plain dict, on runs with empty and non-empty attributes. one case = one program; non-trivial = a program in "
         "which some result shares a run object or is identical to an operand AND some memo field was filled before that step")
 ASSUMPTIONS = ["texts contain no ESC (fmtstr(str) would parse them; C17) and no lone surrogates",
-               "operands of + / join / splice are FmtStr or str (other types raise TypeError/NotImplemented: outside)",
+               "`x += y` / `x *= n` are run as operator.iadd / operator.imul on a pool value that stays in the pool (model: the plain "
+               "operator); operands of + / join / splice are FmtStr or str (other types raise TypeError/NotImplemented: outside)",
                "splice/append positions are non-negative ints with start <= end (the domain of C09; for end < start the code "
                "slices runs with negative offsets, which the value-level splice model does not cover)",
                "an observation interrupted by an exception (KeyboardInterrupt, an error in a signal handler) writes no memo field "
@@ -316,6 +318,14 @@ def exec_step(d, pool, gens=None):
         return ["raddstr", str(a), wire.enc_tf(d["t"])], one(lambda: d["t"] + f)
     if op == "mul":
         return ["mul", str(a), str(d["n"])], one(lambda: f * d["n"])
+    # augmented assignment: `x += y`, `x *= n` on an immutable value is `x = x + y` / `x = x * n` - a NEW value, the old
+    # one (which stays in the pool under its index) unchanged.  Same model operation as the plain operator.
+    if op == "iadd":
+        return ["add", str(a), str(d["b"])], one(lambda: operator.iadd(f, pool[d["b"]]))
+    if op == "iaddstr":
+        return ["addstr", str(a), wire.enc_tf(d["t"])], one(lambda: operator.iadd(f, d["t"]))
+    if op == "imul":
+        return ["mul", str(a), str(d["n"])], one(lambda: operator.imul(f, d["n"]))
     if op == "rmul":                       # __rmul__ = __mul__
         return ["mul", str(a), str(d["n"])], one(lambda: d["n"] * f)
     if op == "eq":
@@ -519,6 +529,11 @@ def run_program(case, collect=None):
                 want = fresh_color_str(*obs_key[d["k"]])
             if val != want:
                 findings.append(("step %d: %s returned %r, freshly computed %r" % (i, obs_op, val, want), d))
+            # text and length are also recomputed from the runs without calling the implementation (a fresh object could
+            # share a cache with the observed one)
+            indep = {"len": len(v["cells"]), "s": "".join(ch for ch, _ in v["cells"])}.get(obs_op, val)
+            if val != indep:
+                findings.append(("step %d: %s returned %r, the runs hold %r" % (i, obs_op, val, indep), d))
         if obs_key is not None and kind == "raised" and obs_op == "width" and view_of_key(obs_key)["width"] != "E:ValueError":
             findings.append(("step %d: width raised but a fresh copy has width %r" % (i, view_of_key(obs_key)["width"]), d))
         # snapshots of EVERY pool value, memo fields untouched
@@ -695,7 +710,7 @@ def pick_step(r, pool, muts):
     idx = lambda: r.choice([None] + list(range(-L - 1, L + 2)))
     kind = r.choice(["obs"] * 9 + ["add", "add", "addstr", "raddstr", "mul", "join", "join", "getint", "getslice", "getslice",
                                    "getslice", "splice", "splice", "splice", "append", "append", "cwna", "rewrap", "nwar",
-                                   "cwns", "copy", "split", "split", "splitlines", "rmul", "eq", "eq", "hash", "ljust", "rjust", "wslice", "wslice",
+                                   "cwns", "copy", "split", "split", "splitlines", "rmul", "eq", "eq", "hash", "iadd", "iadd", "iaddstr", "imul", "ljust", "rjust", "wslice", "wslice",
                                    "wsliceint", "wsplit", "wsplit", "deleg", "deleg", "setitem", "attsmut", "lit", "fmtstr",
                                    "colorstr"])
     if kind == "obs":
@@ -714,6 +729,14 @@ def pick_step(r, pool, muts):
         if L > 8:
             a = r.choice(small) if small else a
         return dict(op="mul", a=a, n=r.choice([-1, 0, 1, 2, 2, 3]))
+    if kind == "iadd":
+        return dict(op="iadd", a=a, b=r.choice(small) if small else a)
+    if kind == "iaddstr":
+        return dict(op="iaddstr", a=a, t=rtext(r, 0, 3))
+    if kind == "imul":
+        if L > 8:
+            a = r.choice(small) if small else a
+        return dict(op="imul", a=a, n=r.choice([0, 1, 2, 3]))
     if kind == "rmul":
         if L > 8:
             a = r.choice(small) if small else a
@@ -742,6 +765,11 @@ def pick_step(r, pool, muts):
             new = ["s", ""] if r.random() < 0.5 else new
         start = r.randint(0, L + 1)
         end = r.choice([None, None, start, r.randint(start, L + 2), r.randint(start, L + 1)])
+        if r.random() < 0.3 and L:
+            # same-size replacement (what setitem does), with characters of another width
+            new = ["s", "".join(r.choice("a" + WIDE + COMB) for _ in range(r.randint(1, 2)))]
+            start = r.randint(0, max(0, L - len(new[1])))
+            end = start + len(new[1])
         return dict(op="splice", a=a, new=new, start=start, end=end)
     if kind == "append":
         return dict(op="append", a=a, new=rarg(r, pool, small) if r.random() < 0.7 else ["s", ""])
@@ -818,7 +846,15 @@ def pick_extra(r, pool):
     n = len(pool)
     a = r.randrange(n)
     L = sum(len(c.s) for c in pool[a].chunks)
-    k = r.choice(["splice_rev", "wsplit_open", "wsplit_next", "wsplit_next", "wsplit_next"])
+    k = r.choice(["splice_rev", "wsplit_open", "wsplit_next", "wsplit_next", "wsplit_next", "literal_render", "literal_render"])
+    if k == "literal_render":
+        # a plain str operand of + / copy_with_new_str is taken literally, also when it is the terminal string of another
+        # value (texts with ESC are outside the model, which is why this lives in the oracle-only set)
+        j = r.randrange(n)
+        t = view_of_key(key_of(pool[j]))["str"]
+        if isinstance(t, str) and not t.startswith("E:"):
+            return dict(op=r.choice(["addstr", "raddstr", "cwns"]), a=a, t=t)
+        return dict(op="len", a=a)
     if k == "splice_rev":
         start = r.randint(1, L + 1)
         return dict(op="splice", a=a, new=["s", rtext(r, 0, 2, rare=0.0)] if r.random() < 0.6 else ["p", r.randrange(n)],
@@ -854,6 +890,10 @@ ALIASING = [
     ("wslice-whole-run", [dict(op="wslice", a=0, x=0, y=2)]),
     ("splice-middle", [dict(op="splice", a=0, new=["p", 1], start=1, end=2)]),
     ("deleg-upper", [dict(op="deleg", a=0, name="upper", args=[])]),
+    ("splice-same-size", [dict(op="splice", a=0, new=["s", WIDE], start=1, end=2)]),
+    ("splice-same-size-narrow", [dict(op="splice", a=2, new=["s", "ab"], start=0, end=2)]),
+    ("iadd", [dict(op="iadd", a=0, b=1)]),
+    ("imul", [dict(op="imul", a=0, n=2)]),
 ]
 FOLLOW = [
     lambda n: [dict(op="join", a=n, items=[["p", 0], ["p", n]])],
@@ -869,6 +909,9 @@ FOLLOW = [
     lambda n: [dict(op="ljust", a=n, w=7, fill=None)],
     lambda n: [dict(op="wslice", a=n, x=1, y=3)],
     lambda n: [dict(op="splitlines", a=n, keepends=True)],
+    lambda n: [dict(op="iadd", a=n, b=1)],
+    lambda n: [dict(op="iaddstr", a=n, t="!")],
+    lambda n: [dict(op="imul", a=n, n=2)],
 ]
 
 
@@ -926,6 +969,14 @@ def gen_lazy_scenarios():
             seq = [0, 1] * 8 if order == "alternate" else [1, 0, 0, 1, 1, 0] * 3
             steps += [dict(op="wsplit_next", g=g) for g in seq]
             out.append(dict(kind="oracle-only", name="two-generators", steps=steps))
+    # literal terminal strings as text: values whose terminal string equals another value's text-with-escapes
+    for pre in (["len", "str"], ["str"], []):
+        for mk in ("addstr", "cwns"):
+            steps = [dict(op="fmtstr", t="hi", atts={"fg": 31}), dict(op="fmtstr", t="", atts={}), dict(op="fmtstr", t="x", atts={})]
+            steps += [dict(op=o, a=0) for o in pre]
+            steps += [dict(op=mk, a=1 if mk == "addstr" else 2, t=str(fmtstr("hi", fg=31)))]
+            steps += [dict(op=o, a=3) for o in ("len", "s", "str", "width")] + [dict(op=o, a=0) for o in ("len", "s")]
+            out.append(dict(kind="oracle-only", name="literal-render", steps=steps))
     return out
 
 
